@@ -1,9 +1,44 @@
 (* C13 — pickle input is equivalent to the plain-text input for the same datapoints. *)
-From CRNG Require Import Base.ListX Base.Bytes Base.Decimal Model.PickleVM Model.PickleIn.
+From CRNG Require Import Base.ListX Base.Bytes Base.Decimal Model.PickleVM Model.Reencode Model.PickleIn Model.PyPickle
+  Proofs.ReencodeProofs Proofs.PickleInProofs.
 Local Open Scope N_scope.
 
+(* Decoding (the og-rek machine, any text-float oracle) what CPython's pickler writes in protocol 2 or 3
+   for a list of (name, (timestamp, value)) tuples gives back that list: every name below 2^31 bytes,
+   integers 0 <= n < 2^31 (BININT1 / BININT2 / BININT) and every float64, any number of items whose
+   memo indices fit 32 bits.  (Negative BININTs are excluded: see C13_negative_binint_refuted.) *)
+Theorem C13_decode_what_python_encodes :
+  forall pf proto ds,
+    forallb dp_ok ds = true -> 3 * N.of_nat (length ds) + 1 < 4294967296 ->
+    unpickle pf false (py_dumps proto ds)
+    = RDone (VList (map (fun d => VTuple [VStr (d_name d); VTuple [num_val (d_ts d); num_val (d_val d)]]) ds)).
+Proof. exact unpickle_py_dumps. Qed.
+Print Assumptions C13_decode_what_python_encodes.
+
+(* A connection carrying any number of such frames (4-byte big-endian length, then the pickle) hands on
+   exactly the equivalent plain-text lines "name value timestamp", in order — integers verbatim, floats
+   through %f (value) and %.0f (timestamp) — and ends without error. *)
+Theorem C13_frames_become_lines :
+  forall pf fmt6 fmt0 (pss : list (N * list pydp)),
+    Forall (fun pd => frame_ok (fst pd) (snd pd)) pss ->
+    handle_conn pf fmt6 fmt0 (concat (map (fun pd => frame_of (py_dumps (fst pd) (snd pd))) pss))
+    = (concat (map (fun pd => map (fun d => EvLine (line_of fmt6 fmt0 d)) (snd pd)) pss), FinOk).
+Proof. exact handle_conn_frames. Qed.
+Print Assumptions C13_frames_become_lines.
+
+(* one frame followed by anything: its lines come first, whatever the rest of the stream does *)
+Theorem C13_frame_then_rest :
+  forall pf fmt6 fmt0 f proto ds rest,
+    frame_ok proto ds ->
+    handle_stream pf fmt6 fmt0 (S f) (frame_of (py_dumps proto ds) ++ rest)
+    = let (evs, fn) := handle_stream pf fmt6 fmt0 f rest in
+      (map (fun d => EvLine (line_of fmt6 fmt0 d)) ds ++ evs, fn).
+Proof. exact handle_frame. Qed.
+Print Assumptions C13_frame_then_rest.
+
 (* an item (tuple or list) of a name and a (timestamp, value) pair (tuple or list) becomes the line
-   "name value timestamp" *)
+   "name value timestamp"; anything else is counted invalid and does not disturb its neighbours
+   (handle_stream maps handle_item over the decoded list) *)
 Theorem C13_item_line :
   forall fmt6 fmt0 name t v vt tx it d,
     as_seq it = Some [VStr name; d] -> as_seq d = Some [t; v] ->
@@ -13,3 +48,22 @@ Proof.
   intros fmt6 fmt0 name t v vt tx it d H1 H2 H3 H4. unfold handle_item. rewrite H1, H2, H3, H4. reflexivity.
 Qed.
 Print Assumptions C13_item_line.
+
+Theorem C13_bad_item_counted :
+  forall fmt6 fmt0 it, as_seq it = None -> handle_item fmt6 fmt0 it = EvInvalid.
+Proof. intros fmt6 fmt0 it H. unfold handle_item. rewrite H. reflexivity. Qed.
+Print Assumptions C13_bad_item_counted.
+
+(* The statement is false for negative integers in BININT range: the pinned og-rek reads BININT as
+   unsigned.  This is pickle.dumps([('a', (1, -1))], 2), framed: the line says 4294967295.
+   (Recorded as a known finding; the check replays it against the implementation on every run.) *)
+Example C13_negative_binint_refuted :
+  handle_conn (fun _ => None) (fun _ => []) (fun _ => [])
+    [0;0;0;28; 128;2;93;113;0;88;1;0;0;0;97;113;1;75;1;74;255;255;255;255;134;113;2;134;113;3;97;46]
+  = ([EvLine [97; 32; 52;50;57;52;57;54;55;50;57;53; 32; 49]], FinOk).
+Proof. exact negative_binint_refuted. Qed.
+
+Example C13_nonvacuous :
+  frame_ok 2 [ {| d_name := [102;111;111]; d_ts := PyInt 1500000000; d_val := PyFloat 4609434218613702656 |};
+               {| d_name := [98]; d_ts := PyInt 7; d_val := PyInt 300 |} ].
+Proof. unfold frame_ok. split; [reflexivity|]. split; vm_compute; [reflexivity | discriminate]. Qed.
